@@ -380,7 +380,8 @@ func ReadVarLength(reader io.Reader) (uint32, error) {
 	for (first || (buffer[0]&0x80 == 0x80)) && (num > 0) {
 		result = result << 7
 
-		num, _ = reader.Read(buffer)
+		// a Read may legally return (0, nil), which does not mean end of file
+		num, _ = io.ReadFull(reader, buffer)
 		result |= (uint32(buffer[0]) & 0x7f)
 		first = false
 	}
